@@ -49,6 +49,7 @@ class Tape:
         self.bits = list(bits)
         self.pos = 0
         self.calls = 0
+        self.foreign = 0
 
     def take(self, k):
         if self.pos + k > len(self.bits):
@@ -61,7 +62,23 @@ class Tape:
         self.calls += 1
         if high is None:
             low, high = 0, low
-        assert (low, high) == (0, 2), 'tape supports randint(0,2,…) / randint(2) only'
+        if (low, high) != (0, 2):
+            # a draw the pinned code never makes (the model knows only bit draws): serve it deterministically from the tape
+            # (binary expansion reduced into the range) so that the code under test keeps running; its output then simply
+            # differs from the model's, which is reported as a broken correspondence, not as a harness failure
+            self.foreign += 1
+            span = int(high) - int(low)
+            nb = max(1, (max(span, 1) - 1).bit_length())
+
+            def one():
+                v = 0
+                for b in self.take(nb):
+                    v = 2 * v + int(b)
+                return int(low) + (v % max(span, 1))
+            if size is None:
+                return one()
+            shape = (size,) if np.isscalar(size) else tuple(size)
+            return np.array([one() for _ in range(int(np.prod(shape)))], dtype=np.int_).reshape(shape)
         if size is None:
             return int(self.take(1)[0])
         shape = (size,) if np.isscalar(size) else tuple(size)
@@ -71,7 +88,10 @@ class Tape:
     def choice(self, a, size=None):
         self.calls += 1
         a = np.asarray(a)
-        assert len(a) == 2
+        if len(a) != 2:
+            self.foreign += 1
+            idx = self.randint(0, len(a), size)
+            return a[idx]
         if size is None:
             return a[self.take(1)[0]]
         shape = (size,) if np.isscalar(size) else tuple(size)
